@@ -1,29 +1,756 @@
-use smartcore::cluster::kmeans::*;
+//! C12 — k-means.  Drives `KMeans::fit` / `predict` and the BBD-tree filtering step
+//! (`smartcore::verif::BbdHandle`) of the real library and records what they returned, one
+//! ndjson event per call, integers / booleans / strings only.
+//!
+//! No property logic lives here.  The harness generates inputs (respecting the domain of the
+//! statement: at least k distinct rows, k >= 2, max_iter >= 1), calls the library and projects
+//! floats to integers (exact integers, fixed point round(v * 2^S)).  Whether a result is
+//! acceptable is decided by the TLA+ predicates of spec/cluster/KMeansProps.tla, evaluated by
+//! TLC in KMeansTrace.tla.
+//!
+//! Events
+//!   KMFit { cls, prec, n, d, k, maxIter, xs, X, status, finite, inrange, y, size, cfx,
+//!           pstatus, exact, Q, Q8, c8, pred }
+//!       X    rows: lattice integers (xs = 4096) or round(x * 2^12) for continuous data (xs = 1)
+//!       cfx  round(centroid * 2^12);  c8 / Q8: round(v * 2^8) of centroids / query rows
+//!       y, size, centroids come from the serde serialisation of the fitted model
+//!   Bbd   { cls, n, d, k, X, cn, cd, status, member, counts, sumsInt, sums, distOk, dS, distFx, exp? }
+//!       centroid c = cn[c] / cd[c] (exact rational; the float handed to the tree is that quotient)
+//!       distFx = round(distortion * 2^dS)
+use rand::rngs::StdRng;
+use rand::seq::SliceRandom;
+use rand::Rng;
+use serde_json::{json, Value};
+use smartcore::cluster::kmeans::{KMeans, KMeansParameters};
 use smartcore::linalg::naive::dense_matrix::DenseMatrix;
+use smartcore::verif::BbdHandle;
+use std::collections::HashSet;
+use std::io::Read;
+use std::time::{Duration, Instant};
+use vutil::*;
+
+type Rows = Vec<Vec<f64>>;
+
+const S_FIT: u32 = 12;
+const S_PRED: u32 = 8;
+
+fn distinct_rows(x: &Rows) -> usize {
+    let mut s: HashSet<Vec<u64>> = HashSet::new();
+    for r in x {
+        s.insert(r.iter().map(|v| v.to_bits()).collect());
+    }
+    s.len()
+}
+
+/// what a fit + predict returned, still as floats
+struct FitOut {
+    status: &'static str,
+    y: Vec<i64>,
+    size: Vec<i64>,
+    centroids: Vec<Vec<f64>>,
+    pstatus: &'static str,
+    pred: Vec<f64>,
+}
+
+fn empty_out(status: &'static str) -> FitOut {
+    FitOut { status, y: vec![], size: vec![], centroids: vec![], pstatus: "none", pred: vec![] }
+}
+
+/// read the private state of a fitted model through its serde serialisation
+fn dump(v: &Value) -> (Vec<i64>, Vec<i64>, Vec<Vec<f64>>) {
+    let ints = |a: &Value| -> Vec<i64> {
+        a.as_array().map(|x| x.iter().map(|e| e.as_i64().unwrap_or(-1)).collect()).unwrap_or_default()
+    };
+    let cents: Vec<Vec<f64>> = v["centroids"]
+        .as_array()
+        .map(|rows| {
+            rows.iter()
+                .map(|r| {
+                    r.as_array()
+                        .map(|x| x.iter().map(|e| e.as_f64().unwrap_or(f64::NAN)).collect())
+                        .unwrap_or_default()
+                })
+                .collect()
+        })
+        .unwrap_or_default();
+    (ints(&v["_y"]), ints(&v["size"]), cents)
+}
+
+macro_rules! fit_as {
+    ($t:ty, $x:expr, $q:expr, $k:expr, $mi:expr) => {{
+        let x: Rows = $x.clone();
+        let q: Rows = $q.clone();
+        let k: usize = $k;
+        let mi: usize = $mi;
+        let r = watchdog(30, move || {
+            let xm: Vec<Vec<$t>> = x.iter().map(|r| r.iter().map(|&v| v as $t).collect()).collect();
+            let qm: Vec<Vec<$t>> = q.iter().map(|r| r.iter().map(|&v| v as $t).collect()).collect();
+            let xd = DenseMatrix::from_2d_vec(&xm);
+            let fit = KMeans::<$t>::fit(&xd, KMeansParameters::default().with_k(k).with_max_iter(mi));
+            match fit {
+                Err(_) => empty_out("err"),
+                Ok(model) => {
+                    let (y, size, centroids) = dump(&serde_json::to_value(&model).unwrap_or(Value::Null));
+                    let mut out = FitOut { status: "ok", y, size, centroids, pstatus: "none", pred: vec![] };
+                    if !qm.is_empty() {
+                        let qd = DenseMatrix::from_2d_vec(&qm);
+                        match guard(|| model.predict(&qd)) {
+                            Ok(Ok(p)) => {
+                                out.pstatus = "ok";
+                                out.pred = p.iter().map(|&v| v as f64).collect();
+                            }
+                            Ok(Err(_)) => out.pstatus = "err",
+                            Err(_) => out.pstatus = "panic",
+                        }
+                    }
+                    out
+                }
+            }
+        });
+        match r {
+            None => empty_out("timeout"),
+            Some(Err(_)) => empty_out("panic"),
+            Some(Ok(o)) => o,
+        }
+    }};
+}
+
+fn run_fit(prec: u32, x: &Rows, q: &Rows, k: usize, mi: usize) -> FitOut {
+    if prec == 32 {
+        fit_as!(f32, x, q, k, mi)
+    } else {
+        fit_as!(f64, x, q, k, mi)
+    }
+}
+
+/// project one fit to an event.  `lattice`: X / Q hold exact integers.
+fn fit_event(run: i64, cls: &str, prec: u32, lattice: bool, x: &Rows, q: &Rows, k: usize, mi: usize, o: &FitOut) -> Value {
+    let n = x.len();
+    let d = x[0].len();
+    let q12 = Q::new(S_FIT);
+    let q8 = Q::new(S_PRED);
+    let xin = Q::new(S_FIT);
+    let (xs, xi): (i64, Vec<Vec<i64>>) = if lattice {
+        (1 << S_FIT, x.iter().map(|r| r.iter().map(|&v| int_exact(v).unwrap_or(0)).collect()).collect())
+    } else {
+        (1, xin.m(x))
+    };
+    let mut e = json!({"run": run, "ev": "KMFit", "cls": cls, "prec": prec, "n": n, "d": d, "k": k,
+                       "maxIter": mi, "xs": xs, "X": xi, "status": o.status});
+    if o.status == "ok" {
+        let cfx = q12.m(&o.centroids);
+        let c8 = q8.m(&o.centroids);
+        let qq8 = q8.m(q);
+        let qi: Vec<Vec<i64>> = if lattice {
+            q.iter().map(|r| r.iter().map(|&v| int_exact(v).unwrap_or(0)).collect()).collect()
+        } else {
+            vec![]
+        };
+        // a prediction that is not a small integer is mapped to -1, which no predicate accepts
+        let pred: Vec<i64> = o.pred.iter().map(|&v| int_exact(v).unwrap_or(-1)).collect();
+        let m = e.as_object_mut().unwrap();
+        m.insert("finite".into(), json!(q12.finite.get()));
+        m.insert("inrange".into(), json!(q12.inrange.get() && xin.ok() && q8.ok()));
+        m.insert("y".into(), json!(o.y));
+        m.insert("size".into(), json!(o.size));
+        m.insert("cfx".into(), json!(cfx));
+        m.insert("pstatus".into(), json!(o.pstatus));
+        m.insert("exact".into(), json!(lattice && prec == 64));
+        m.insert("Q".into(), json!(qi));
+        m.insert("Q8".into(), json!(qq8));
+        m.insert("c8".into(), json!(c8));
+        m.insert("pred".into(), json!(pred));
+    }
+    e
+}
+
+// ------------------------------------------------------------------ data generators
+fn lattice_uniform(r: &mut StdRng, n: usize, d: usize, range: i64) -> Rows {
+    (0..n).map(|_| (0..d).map(|_| r.gen_range(0..=range) as f64).collect()).collect()
+}
+
+/// integer blobs: g centres on 0..16, rows = centre + noise in -1..1 (clipped to 0..16)
+fn lattice_blobs(r: &mut StdRng, n: usize, d: usize, g: usize) -> Rows {
+    let centres: Vec<Vec<i64>> = (0..g).map(|_| (0..d).map(|_| r.gen_range(1..=15)).collect()).collect();
+    (0..n)
+        .map(|_| {
+            let c = &centres[r.gen_range(0..g)];
+            c.iter().map(|&v| (v + r.gen_range(-1..=1)).max(0).min(16) as f64).collect()
+        })
+        .collect()
+}
+
+/// m distinct lattice rows, each replicated
+fn lattice_dups(r: &mut StdRng, n: usize, d: usize, m: usize) -> Rows {
+    let mut base: Vec<Vec<f64>> = Vec::new();
+    let mut guard_ctr = 0;
+    while base.len() < m && guard_ctr < 1000 {
+        let row: Vec<f64> = (0..d).map(|_| r.gen_range(0..=6) as f64).collect();
+        if !base.contains(&row) {
+            base.push(row);
+        }
+        guard_ctr += 1;
+    }
+    let mut x: Rows = base.clone();
+    while x.len() < n {
+        x.push(base[r.gen_range(0..base.len())].clone());
+    }
+    x.shuffle(r);
+    x
+}
+
+fn cont_uniform(r: &mut StdRng, n: usize, d: usize) -> Rows {
+    (0..n).map(|_| (0..d).map(|_| r.gen_range(0.0..8.0)).collect()).collect()
+}
+
+fn cont_blobs(r: &mut StdRng, n: usize, d: usize, g: usize) -> Rows {
+    let centres: Vec<Vec<f64>> = (0..g).map(|_| (0..d).map(|_| r.gen_range(1.0..7.0)).collect()).collect();
+    (0..n)
+        .map(|_| {
+            let c = &centres[r.gen_range(0..g)];
+            c.iter()
+                .map(|&v| {
+                    let noise: f64 = (0..4).map(|_| r.gen_range(-0.25..0.25)).sum();
+                    (v + noise).max(0.0).min(7.999)
+                })
+                .collect()
+        })
+        .collect()
+}
+
+fn pick_n(r: &mut StdRng, th: bool) -> usize {
+    let p: f64 = r.gen();
+    if p < 0.45 {
+        r.gen_range(2..=12)
+    } else if p < 0.8 {
+        r.gen_range(13..=60)
+    } else if p < 0.95 || !th {
+        r.gen_range(61..=120)
+    } else {
+        r.gen_range(121..=300)
+    }
+}
+
+fn queries(r: &mut StdRng, x: &Rows, lattice: bool) -> Rows {
+    let n = x.len();
+    let d = x[0].len();
+    let mut q: Rows = Vec::new();
+    let mut ids: Vec<usize> = (0..n).collect();
+    ids.shuffle(r);
+    for &i in ids.iter().take(24) {
+        q.push(x[i].clone());
+    }
+    for _ in 0..8 {
+        if lattice {
+            q.push((0..d).map(|_| r.gen_range(-8..=24) as f64).collect());
+        } else {
+            q.push((0..d).map(|_| r.gen_range(-4.0..12.0)).collect());
+        }
+    }
+    q
+}
+
+const MAX_ITERS: [usize; 8] = [1, 2, 3, 5, 10, 30, 100, 100];
+
+fn gen_fit(out: &mut Out, run: &mut i64) {
+    let th = thorough();
+    let mut r = rng(1201);
+    let reps = if th { 40 } else { 5 };
+    let sets = if th { 260 } else { 110 };
+    // (a) the scope of the Lloyd design model: 1-D rows on 0..4, canonical order, k = 2
+    let nmax = 5usize;
+    let mut small: Vec<Vec<i64>> = vec![vec![]];
+    for _ in 0..nmax {
+        let mut nx = Vec::new();
+        for s in &small {
+            let lo = s.last().copied().unwrap_or(0);
+            for v in lo..=4 {
+                let mut t = s.clone();
+                t.push(v);
+                nx.push(t);
+            }
+        }
+        small.extend(nx.clone());
+        small.sort();
+        small.dedup();
+    }
+    for s in small.iter() {
+        let x: Rows = s.iter().map(|&v| vec![v as f64]).collect();
+        if x.len() < 2 || distinct_rows(&x) < 2 {
+            continue;
+        }
+        for &mi in [1usize, 2, 3].iter() {
+            for _ in 0..(if th { 12 } else { 2 }) {
+                *run += 1;
+                let q: Rows = (-2..=6).map(|v| vec![v as f64]).collect();
+                let o = run_fit(64, &x, &q, 2, mi);
+                out.emit(fit_event(*run, "small1d", 64, true, &x, &q, 2, mi, &o));
+            }
+        }
+    }
+    // (b) seeded random data sets, R repeated fits each (the seeding is unseeded)
+    for s in 0..sets {
+        let kind = s % 8;
+        let n = pick_n(&mut r, th);
+        let d = r.gen_range(1..=6usize);
+        let (cls, lattice, x): (&str, bool, Rows) = match kind {
+            0 | 1 => {
+                let range = r.gen_range(1..=8);
+                ("lattice", true, lattice_uniform(&mut r, n, d, range))
+            }
+            2 => {
+                let g = r.gen_range(2..=5);
+                ("blobs", true, lattice_blobs(&mut r, n, d, g))
+            }
+            3 => {
+                let m = r.gen_range(2..=9usize);
+                ("dups", true, lattice_dups(&mut r, n.max(m), d, m))
+            }
+            4 => ("cont", false, cont_uniform(&mut r, n, d)),
+            5 => {
+                let g = r.gen_range(2..=5);
+                ("contblobs", false, cont_blobs(&mut r, n, d, g))
+            }
+            6 => {
+                let range = r.gen_range(2..=12);
+                ("lattice1d", true, lattice_uniform(&mut r, n.min(40), 1, range))
+            }
+            _ => {
+                let range = r.gen_range(1..=8);
+                ("lattice32", true, lattice_uniform(&mut r, n.min(60), d, range))
+            }
+        };
+        let prec = if kind == 7 { 32 } else { 64 };
+        let dist = distinct_rows(&x);
+        if dist < 2 {
+            continue; // outside the domain of the statement for every k >= 2
+        }
+        let q = queries(&mut r, &x, lattice);
+        for _ in 0..reps {
+            let k = r.gen_range(2..=8usize.min(dist));
+            let mi = MAX_ITERS[r.gen_range(0..MAX_ITERS.len())];
+            *run += 1;
+            let o = run_fit(prec, &x, &q, k, mi);
+            out.emit(fit_event(*run, cls, prec, lattice, &x, &q, k, mi, &o));
+        }
+    }
+}
+
+// ------------------------------------------------------------------ rows one ulp apart
+/// Table of data sets in which two rows differ by one unit in the last place in one
+/// coordinate.  (prec, rows, class).  The class names describe the INPUT only:
+///   ulp-down  the midpoint (lo+hi)/2 of the pair rounds to lo and (hi-lo)/2 >= 1e-10
+///   ulp-up    it rounds to hi and (hi-lo)/2 >= 1e-10
+///   ulp-tiny  (hi-lo)/2 < 1e-10 (the tree treats the rows as coincident)
+fn ulp_cases() -> Vec<(u32, Rows, String)> {
+    let mut v: Vec<(u32, Rows, String)> = Vec::new();
+    let classify32 = |lo: f32, hi: f32| -> &'static str {
+        if ((hi - lo) / 2.0) < 1e-10 {
+            "ulp-tiny"
+        } else if (lo + hi) / 2.0 == lo {
+            "ulp-down"
+        } else {
+            "ulp-up"
+        }
+    };
+    let classify64 = |lo: f64, hi: f64| -> &'static str {
+        if ((hi - lo) / 2.0) < 1e-10 {
+            "ulp-tiny"
+        } else if (lo + hi) / 2.0 == lo {
+            "ulp-down"
+        } else {
+            "ulp-up"
+        }
+    };
+    for &b in [1.0f32, 0.5, 3.0, 2.5, 6.25].iter() {
+        for step in 0..2u32 {
+            let lo = f32::from_bits(b.to_bits() + step);
+            let hi = f32::from_bits(lo.to_bits() + 1);
+            let c = classify32(lo, hi);
+            let (lo, hi) = (lo as f64, hi as f64);
+            v.push((32, vec![vec![7.0], vec![lo], vec![hi]], format!("{}", c)));
+            v.push((32, vec![vec![lo], vec![hi], vec![0.0]], format!("{}", c)));
+            v.push((32, vec![vec![lo, 2.0], vec![0.0, 2.0], vec![hi, 2.0], vec![7.0, 2.0]], format!("{}", c)));
+        }
+    }
+    for &b in [1.0f64, 3.0, 4194304.0, 6291456.0].iter() {
+        for step in 0..2u64 {
+            let lo = f64::from_bits(b.to_bits() + step);
+            let hi = f64::from_bits(lo.to_bits() + 1);
+            let c = classify64(lo, hi);
+            v.push((64, vec![vec![0.0], vec![lo], vec![hi]], format!("{}", c)));
+            v.push((64, vec![vec![lo], vec![hi], vec![0.0]], format!("{}", c)));
+        }
+    }
+    v
+}
+
+/// child mode: run case `id` of the table and print its event (a stack overflow of the code
+/// under test aborts the process; the parent records that as status "abort")
+fn ulp_child(id: usize) {
+    let cases = ulp_cases();
+    let (prec, x, cls) = &cases[id];
+    let q: Rows = x.clone();
+    let o = run_fit(*prec, x, &q, 2, 10);
+    println!("{}", fit_event(0, cls, *prec, false, x, &q, 2, 10, &o));
+}
+
+fn gen_ulp(out: &mut Out, run: &mut i64) {
+    let exe = std::env::current_exe().expect("current_exe");
+    for (id, (prec, x, cls)) in ulp_cases().iter().enumerate() {
+        *run += 1;
+        let mut child = std::process::Command::new(&exe)
+            .arg("ulp-child")
+            .arg(id.to_string())
+            .stdout(std::process::Stdio::piped())
+            .stderr(std::process::Stdio::null())
+            .spawn()
+            .expect("spawn");
+        let t0 = Instant::now();
+        let mut status: Option<std::process::ExitStatus> = None;
+        while t0.elapsed() < Duration::from_secs(40) {
+            if let Some(s) = child.try_wait().expect("wait") {
+                status = Some(s);
+                break;
+            }
+            std::thread::sleep(Duration::from_millis(5));
+        }
+        let mut text = String::new();
+        let ev = match status {
+            None => {
+                let _ = child.kill();
+                let _ = child.wait();
+                fit_event(*run, cls, *prec, false, x, x, 2, 10, &empty_out("timeout"))
+            }
+            Some(s) => {
+                if let Some(mut so) = child.stdout.take() {
+                    let _ = so.read_to_string(&mut text);
+                }
+                match (s.success(), serde_json::from_str::<Value>(text.trim())) {
+                    (true, Ok(mut v)) => {
+                        v["run"] = json!(*run);
+                        v
+                    }
+                    _ => fit_event(*run, cls, *prec, false, x, x, 2, 10, &empty_out("abort")),
+                }
+            }
+        };
+        out.emit(ev);
+    }
+}
+
+// ------------------------------------------------------------------ filtering step
+/// a centroid as an exact rational vector cn / cd
+#[derive(Clone)]
+struct RC {
+    cn: Vec<i64>,
+    cd: i64,
+}
+
+fn rc_float(c: &RC) -> Vec<f64> {
+    c.cn.iter().map(|&a| a as f64 / c.cd as f64).collect()
+}
+
+/// would some intermediate of the specification's integer arithmetic leave 32 bits?
+/// (range guard only: d * (max |x*cd - cn|)^2 must stay below 2^30)
+fn in_range(x: &[Vec<i64>], cs: &[RC]) -> bool {
+    let d = x[0].len() as f64;
+    let mut worst = 0f64;
+    for c in cs {
+        for row in x {
+            for j in 0..row.len() {
+                let v = ((row[j] * c.cd - c.cn[j]) as f64).abs();
+                if v > worst {
+                    worst = v;
+                }
+            }
+        }
+    }
+    d * worst * worst < 1.0e9
+}
+
+fn bbd_event(run: i64, cls: &str, x: &[Vec<i64>], cs: &[RC], exp: Option<&Value>) -> Value {
+    let n = x.len();
+    let d = x[0].len();
+    let k = cs.len();
+    let xf: Rows = x.iter().map(|r| r.iter().map(|&v| v as f64).collect()).collect();
+    let cf: Rows = cs.iter().map(rc_float).collect();
+    let r = guard(|| {
+        let xd = DenseMatrix::from_2d_vec(&xf);
+        let h = BbdHandle::<f64>::new(&xd);
+        h.clustering(&cf)
+    });
+    let cn: Vec<Vec<i64>> = cs.iter().map(|c| c.cn.clone()).collect();
+    let cd: Vec<i64> = cs.iter().map(|c| c.cd).collect();
+    let mut e = json!({"run": run, "ev": "Bbd", "cls": cls, "n": n, "d": d, "k": k, "X": x, "cn": cn, "cd": cd});
+    let m = e.as_object_mut().unwrap();
+    match r {
+        Err(_) => {
+            m.insert("status".into(), json!("panic"));
+        }
+        Ok((member, counts, sums, dist)) => {
+            m.insert("status".into(), json!("ok"));
+            m.insert("member".into(), json!(member));
+            m.insert("counts".into(), json!(counts));
+            match intm(&sums) {
+                Some(s) => {
+                    m.insert("sumsInt".into(), json!(true));
+                    m.insert("sums".into(), json!(s));
+                }
+                None => {
+                    m.insert("sumsInt".into(), json!(false));
+                    m.insert("sums".into(), json!(Vec::<Vec<i64>>::new()));
+                }
+            }
+            // largest scale S <= 12 with (dist + n + 2) * 2^S < 2^30
+            let mut s = 12u32;
+            while s > 0 && (dist.abs() + n as f64 + 2.0) * ((1u64 << s) as f64) >= 1.0e9 {
+                s -= 1;
+            }
+            let q = Q::with_limit(s, 1.05e9);
+            let dfx = q.x(dist);
+            m.insert("distOk".into(), json!(q.ok() && dist >= 0.0));
+            m.insert("dS".into(), json!(s));
+            m.insert("distFx".into(), json!(dfx));
+        }
+    }
+    if let Some(x) = exp {
+        m.insert("exp".into(), x.clone());
+    }
+    e
+}
+
+fn gen_centroids(r: &mut StdRng, x: &[Vec<i64>], k: usize, range: i64) -> Vec<RC> {
+    let n = x.len();
+    let d = x[0].len();
+    let mut cs: Vec<RC> = Vec::new();
+    for _ in 0..k {
+        let kind = r.gen_range(0..10);
+        let c = match kind {
+            0 | 1 | 2 => RC { cn: (0..d).map(|_| r.gen_range(-2..=2 * range + 2)).collect(), cd: 2 },
+            3 => RC { cn: x[r.gen_range(0..n)].clone(), cd: 1 },
+            4 if !cs.is_empty() => cs[r.gen_range(0..cs.len())].clone(),
+            5 => {
+                // far outside the data
+                let sgn: i64 = if r.gen_bool(0.5) { 1 } else { -1 };
+                RC { cn: (0..d).map(|_| sgn * r.gen_range(3 * range..=10 * range + 3)).collect(), cd: 1 }
+            }
+            6 | 7 => {
+                // midpoint of two rows: exact ties
+                let a = &x[r.gen_range(0..n)];
+                let b = &x[r.gen_range(0..n)];
+                RC { cn: (0..d).map(|j| a[j] + b[j]).collect(), cd: 2 }
+            }
+            8 => {
+                // mean of a random subset of the rows
+                let m = r.gen_range(1..=n.min(12));
+                let mut cn = vec![0i64; d];
+                for _ in 0..m {
+                    let row = &x[r.gen_range(0..n)];
+                    for j in 0..d {
+                        cn[j] += row[j];
+                    }
+                }
+                RC { cn, cd: m as i64 }
+            }
+            _ => RC { cn: (0..d).map(|_| r.gen_range(0..=range)).collect(), cd: 1 },
+        };
+        cs.push(c);
+    }
+    cs
+}
+
+fn to_int_rows(x: &Rows) -> Vec<Vec<i64>> {
+    x.iter().map(|r| r.iter().map(|&v| v as i64).collect()).collect()
+}
+
+fn gen_bbd(out: &mut Out, run: &mut i64) -> usize {
+    let th = thorough();
+    let mut r = rng(1202);
+    let mut skipped = 0usize;
+    let cases = if th { 2600 } else { 420 };
+    for s in 0..cases {
+        let n = pick_n(&mut r, th);
+        let d = r.gen_range(1..=6usize);
+        let range: i64 = r.gen_range(1..=8);
+        let x: Vec<Vec<i64>> = match s % 4 {
+            0 | 1 => to_int_rows(&lattice_uniform(&mut r, n, d, range)),
+            2 => {
+                let g = r.gen_range(2..=5);
+                to_int_rows(&lattice_blobs(&mut r, n, d, g))
+            }
+            _ => {
+                let m = r.gen_range(1..=7);
+                to_int_rows(&lattice_dups(&mut r, n, d, m))
+            }
+        };
+        let range = if s % 4 == 2 { 16 } else { range };
+        let k = r.gen_range(1..=8usize);
+        let cs = gen_centroids(&mut r, &x, k, range);
+        if !in_range(&x, &cs) {
+            skipped += 1;
+            continue;
+        }
+        *run += 1;
+        out.emit(bbd_event(*run, "random", &x, &cs, None));
+    }
+    // Lloyd chains through the real tree: centroids = means of the previous assignment,
+    // exactly as KMeans::fit feeds them back (sums / counts, previous centroid when empty)
+    let chains = if th { 500 } else { 90 };
+    for s in 0..chains {
+        let n = if th { pick_n(&mut r, th).min(200) } else { pick_n(&mut r, th).min(80) };
+        let d = r.gen_range(1..=4usize);
+        let x: Vec<Vec<i64>> = match s % 3 {
+            0 => {
+                let range = r.gen_range(2..=8);
+                to_int_rows(&lattice_uniform(&mut r, n, d, range))
+            }
+            1 => {
+                let g = r.gen_range(2..=5);
+                to_int_rows(&lattice_blobs(&mut r, n, d, g))
+            }
+            _ => {
+                let m = r.gen_range(2..=7);
+                to_int_rows(&lattice_dups(&mut r, n, d, m))
+            }
+        };
+        let k = r.gen_range(2..=6usize);
+        let mut cs: Vec<RC> = (0..k).map(|_| RC { cn: x[r.gen_range(0..n)].clone(), cd: 1 }).collect();
+        for _step in 0..6 {
+            if !in_range(&x, &cs) {
+                skipped += 1;
+                break;
+            }
+            *run += 1;
+            let e = bbd_event(*run, "chain", &x, &cs, None);
+            let ok = e["status"] == "ok" && e["sumsInt"] == json!(true);
+            let next: Option<Vec<RC>> = if ok {
+                let counts: Vec<i64> = e["counts"].as_array().unwrap().iter().map(|v| v.as_i64().unwrap()).collect();
+                let sums: Vec<Vec<i64>> = e["sums"]
+                    .as_array()
+                    .unwrap()
+                    .iter()
+                    .map(|r| r.as_array().unwrap().iter().map(|v| v.as_i64().unwrap()).collect())
+                    .collect();
+                Some(
+                    (0..k)
+                        .map(|c| if counts[c] > 0 { RC { cn: sums[c].clone(), cd: counts[c] } } else { cs[c].clone() })
+                        .collect(),
+                )
+            } else {
+                None
+            };
+            out.emit(e);
+            match next {
+                Some(nx) => cs = nx,
+                None => break,
+            }
+        }
+    }
+    skipped
+}
+
+/// spec -> impl: terminal states printed by TLC for BbdFilter.tla (data, doubled centroids and
+/// the model's outputs) are pushed through the real tree; the model's outputs travel along as
+/// `exp` so that the trace spec can count MODEL-DRIFT.
+fn replay_spec(inp: &str, out: &mut Out, run: &mut i64) {
+    for v in read_ndjson(inp) {
+        let x: Vec<Vec<i64>> = v["X"]
+            .as_array()
+            .unwrap()
+            .iter()
+            .map(|r| r.as_array().unwrap().iter().map(|a| a.as_i64().unwrap()).collect())
+            .collect();
+        let cs: Vec<RC> = v["c2"]
+            .as_array()
+            .unwrap()
+            .iter()
+            .map(|r| RC { cn: r.as_array().unwrap().iter().map(|a| a.as_i64().unwrap()).collect(), cd: 2 })
+            .collect();
+        let exp = json!({"member": v["member"], "counts": v["counts"], "sums": v["sums"],
+                         "distNum": v["distNum"], "distDen": v["distDen"]});
+        *run += 1;
+        out.emit(bbd_event(*run, "model", &x, &cs, Some(&exp)));
+    }
+}
+
+/// re-execute the events of a replay artefact (inputs only are taken from the file)
+fn rerun(inp: &str, out: &mut Out, run: &mut i64) {
+    for v in read_ndjson(inp) {
+        *run += 1;
+        let ints = |a: &Value| -> Vec<Vec<i64>> {
+            a.as_array()
+                .unwrap()
+                .iter()
+                .map(|r| r.as_array().unwrap().iter().map(|a| a.as_i64().unwrap()).collect())
+                .collect()
+        };
+        if v["ev"] == "Bbd" {
+            let x = ints(&v["X"]);
+            let cn = ints(&v["cn"]);
+            let cd: Vec<i64> = v["cd"].as_array().unwrap().iter().map(|a| a.as_i64().unwrap()).collect();
+            let cs: Vec<RC> = cn.into_iter().zip(cd).map(|(cn, cd)| RC { cn, cd }).collect();
+            out.emit(bbd_event(*run, v["cls"].as_str().unwrap_or("rerun"), &x, &cs, None));
+        } else if v["ev"] == "KMFit" && v["xs"].as_i64() == Some(1 << S_FIT) {
+            let x: Rows = ints(&v["X"]).iter().map(|r| r.iter().map(|&a| a as f64).collect()).collect();
+            let q: Rows = if v["Q"].is_array() {
+                ints(&v["Q"]).iter().map(|r| r.iter().map(|&a| a as f64).collect()).collect()
+            } else {
+                x.clone()
+            };
+            let prec = v["prec"].as_u64().unwrap_or(64) as u32;
+            let k = v["k"].as_u64().unwrap() as usize;
+            let mi = v["maxIter"].as_u64().unwrap() as usize;
+            let o = run_fit(prec, &x, &q, k, mi);
+            out.emit(fit_event(*run, v["cls"].as_str().unwrap_or("rerun"), prec, true, &x, &q, k, mi, &o));
+        } else {
+            // continuous inputs are stored quantised and cannot be re-executed exactly
+            out.emit(v.clone());
+        }
+    }
+}
+
 fn main() {
-    let a: Vec<String> = std::env::args().collect();
-    match a[1].as_str() {
-        "f32" => {
-            let lo = 1.0f32; let hi = f32::from_bits(lo.to_bits() + 1);
-            println!("center==lo {}", (lo + hi) / 2.0 == lo);
-            let x = DenseMatrix::from_2d_vec(&vec![vec![5.0f32], vec![lo], vec![hi]]);
-            let m = KMeans::fit(&x, KMeansParameters::default().with_k(2)).unwrap();
-            println!("{}", serde_json::to_string(&m).unwrap());
+    let args: Vec<String> = std::env::args().skip(1).collect();
+    let args = &args[..];
+    silence_panics();
+    let mode = arg(args, 0);
+    if mode == "ulp-child" {
+        ulp_child(arg(args, 1).parse().expect("case id"));
+        return;
+    }
+    let path = arg(args, 1);
+    let mut run = 0i64;
+    let mut skipped = 0usize;
+    match mode {
+        "gen-fit" => {
+            let mut out = Out::create(path);
+            gen_fit(&mut out, &mut run);
+            gen_ulp(&mut out, &mut run);
+            let n = out.finish();
+            println!("events={} runs={} skipped={}", n, run, skipped);
         }
-        "f32b" => {
-            let lo = f32::from_bits(1.0f32.to_bits() + 1); let hi = f32::from_bits(lo.to_bits() + 1);
-            println!("center==lo {}", (lo + hi) / 2.0 == lo);
-            let x = DenseMatrix::from_2d_vec(&vec![vec![5.0f32], vec![lo], vec![hi]]);
-            let m = KMeans::fit(&x, KMeansParameters::default().with_k(2)).unwrap();
-            println!("{}", serde_json::to_string(&m).unwrap());
+        "gen-bbd" => {
+            let mut out = Out::create(path);
+            skipped = gen_bbd(&mut out, &mut run);
+            let n = out.finish();
+            println!("events={} runs={} skipped={}", n, run, skipped);
         }
-        "f64" => {
-            let lo = 8388608.0f64; let hi = f64::from_bits(lo.to_bits() + 1);
-            println!("center==lo {} radius {}", (lo + hi) / 2.0 == lo, (hi-lo)/2.0);
-            let x = DenseMatrix::from_2d_vec(&vec![vec![lo], vec![hi], vec![0.0]]);
-            let m = KMeans::fit(&x, KMeansParameters::default().with_k(2)).unwrap();
-            println!("{}", serde_json::to_string(&m).unwrap());
+        "replay-spec" => {
+            let mut out = Out::create(arg(args, 2));
+            replay_spec(path, &mut out, &mut run);
+            let n = out.finish();
+            println!("events={} runs={} skipped={}", n, run, skipped);
         }
-        _ => {}
+        "rerun" => {
+            let mut out = Out::create(arg(args, 2));
+            rerun(path, &mut out, &mut run);
+            let n = out.finish();
+            println!("events={} runs={} skipped={}", n, run, skipped);
+        }
+        _ => {
+            eprintln!("unknown c12 mode {}", mode);
+            std::process::exit(2);
+        }
     }
 }
